@@ -543,7 +543,7 @@ class BaseDocutilsDirective(tinydocutils.directives.Directive):
         else:
             argument_text = arg_lines[0]
             textnodes, messages = self.state.inline_text(argument_text, self.lineno)
-            argument = directive_argument(argument_text, "", *textnodes)
+            argument = directive_argument(argument_text, "", *textnodes, *messages)
             argument.document = self.state.document
             argument.source, argument.line = source, line
             node.append(argument)
@@ -675,7 +675,7 @@ class BaseTabsDirective(BaseDocutilsDirective):
 
         if title is not None:
             textnodes, messages = self.state.inline_text(title, line)
-            argument = directive_argument(title, "", *textnodes)
+            argument = directive_argument(title, "", *textnodes, *messages)
             argument.document = self.state.document
             argument.source, argument.line = source, line
             node.append(argument)
@@ -803,6 +803,7 @@ class BaseVersionDirective(tinydocutils.directives.Directive):
             for argument_text in arguments:
                 text, messages = self.state.inline_text(argument_text, self.lineno)
                 textnodes.extend(text)
+                textnodes.extend(messages)
             argument = directive_argument("", "", *textnodes)
             argument.document = self.state.document
             argument.source, argument.line = source, line
